@@ -77,3 +77,32 @@ def c18(run, a):
                    "(non-trivial = valid pool with a range ending at the maximum address); plus every operation of the IPAM-family traces under the "
                    "scheduler watchdog with panic capture. Byte-level parser surfaces are NOT covered (DESIGN.md 6 C18).")
     run.assumptions += ["narrow claim: arithmetic loops, lock release at operation end (a left-over lock shows as a hang of the next operation), panics in driven operations"]
+
+
+def c11(run, a):
+    quick = run.tier == "quick"
+    run.level = "model_checking"
+    vec = tlc_vectors(run, "KeyCodec", "keycodec_q.cfg" if quick else "keycodec_t.cfg", "keyvectors.json")
+    meta = json.load(open(vec))
+    binp = run.build("codecdrive")
+    res = run.path("codec.json")
+    p = subprocess.run([binp, "-vectors", vec, "-out", res, "-api-every", "7" if quick else "3"], stdout=subprocess.PIPE, stderr=subprocess.STDOUT, text=True, timeout=3000)
+    if p.returncode != 0 or not os.path.exists(res):
+        raise vlib.Machinery("codecdrive failed:\n" + p.stdout[-2000:])
+    r = json.load(open(res))
+    cov = run.coverage
+    cov["states"] = meta["n"]
+    cov["transitions"] = r["codec"] + r["api"] + r["pagings"]
+    cov["evaluations"] = r["codec"] + r["api"] + r["pagings"]
+    cov["traces_validated_against_impl"] = r["api"]
+    cov["distinct_nontrivial"] = r["api"]
+    cov["exhaustive"] = True
+    cov["rule"] = ("TLC enumerates every pod over names of length <= %d (alphabet a,b,0,-), 4 owner kinds, 3 pools, 2 namespaces and computes key, decoded fields and API entry from KeyCodec.tla "
+                   "(PagingPartition checked on the spec); every pod goes through the real FormatKey/ParseKey (distinctness over all real keys), every k-th through the real HTTP handlers "
+                   "(allocate, list, post the entry back verbatim and with appType omitted for statefulsets, a second owner's ip must stay), paging with all sizes for n <= 6" % (2 if quick else 3))
+    cov["samples"] = [meta["vectors"][0], meta["vectors"][len(meta["vectors"]) // 2]]
+    for fd in r["findings"] or []:
+        sig = {"check": fd["check"], "kind": fd["kind"]}
+        run.add_violation(fd["check"], "%s (owner kind %s): %s" % (fd["check"], fd["kind"], fd["detail"][:160].replace("\n", " ")),
+                          {"property": "C11", "vector": fd["vector"], "detail": fd["detail"], "how": "harness/cmd/codecdrive"}, sig)
+    run.assumptions += ["names are DNS-1123 labels (no underscore); pool names likewise", "the owner of a deployment pod is a ReplicaSet named <deployment>-<hash>"]
